@@ -645,6 +645,19 @@ PROPS = {
                         'partial: absence of data races between CPUs is a Go runtime fact; it is supported by the race-detector run, and structurally by "no shared variables" (packageVars, syncUsers, goroutineStarters)'],
         'explanation': 'every field of CPU/States is exported and the model state is exactly those fields; no package-level state; a run continued from a snapshot at any boundary equals the original run (stepN (m+n) = stepN m then stepN n); any interleaving of two CPUs equals the two separate runs',
     },
+    'C18': {
+        'targets': ['Z80.Props.C18'],
+        'count': ['Z80/Props/C18.lean', 'Z80/Props/C01.lean', 'Z80/Proofs/Block.lean', 'Z80/Proofs/RunLoop.lean'] + ALL_OBL,
+        'correspond': corr_stream([('cpm', 300, 5000, ['-per', '1'])], want_spec=True,
+                                  rule='one vector = one program run by CPU.Run on the REAL tinycpm machine (a copy of internal/tinycpm taken at check time; console writer and warning logger captured): 1-5 mixed calls of '
+                                       'function 2 (any byte), function 9 (strings of length 0..400 and one of 4096, every byte value except $, incl. 00h/80h/FFh, strings crossing 256-byte pages or ending exactly at a page end), '
+                                       'unsupported function numbers, writes to other ports and port reads; then JP 0. Compared: console bytes in order, number of warnings, final PC/SP/HALT, Run result — with the regenerated CPU model '
+                                       'running the BIOS bytes extracted from tinycpm.go, and with the reference'),
+        'assumptions': ['tinycpm.Memory is a 64 KiB byte array (modelled as the byte store); tinycpm.IO is modelled by hand: bytes written to port 0 reach the writer in order, any other port write and any port read only warn and reads return 0 — tied by the correspondence',
+                        'the BIOS pages are extracted from tinycpm.go by go2lean on every run (Gen.cpmBios); the theorems read the stub\'s bytes off that table',
+                        'the caller reaches the stub through the vector at 0005h (CALL 5); the strings must not overlap the BIOS pages; Run\'s loop: C08'],
+        'explanation': 'on the regenerated CPU model executing the regenerated BIOS bytes: function 2 prints E and returns (7 Steps); function 9 prints exactly the bytes up to the first $ for EVERY string (induction over the string: any length, any bytes, any address incl. wrap) and returns; SP restored, memory untouched; JP 0 halts at FF03h',
+    },
     'C16': {
         'targets': ['Z80.Props.C16'],
         'count': ['Z80/Props/C16.lean'],
